@@ -1109,17 +1109,31 @@ def tsan(ctx, rng):
     ctx.notes["tsan_cases"] = len(cs)
     nrace = err.count("WARNING: ThreadSanitizer")
     ctx.notes["tsan_reports"] = nrace
+    # known finding mt-sizeof-cctxpool-races-with-workers: ZSTD_sizeof_CCtx (harness op Z) in the middle of a multithreaded
+    # frame walks the worker contexts through ZSTDMT_sizeof_CCtxPool while jobs run on them.  Only reports with that
+    # function on the stack are attributed to it; any other report stays a plain violation.
+    KEY_SZ = "mt-sizeof-cctxpool-races-with-workers"
+    reports = ["WARNING: ThreadSanitizer" + r for r in err.split("WARNING: ThreadSanitizer")[1:]]
+    other = [r for r in reports if "ZSTDMT_sizeof_CCtxPool" not in r]
+    sizeof_only = bool(reports) and not other
+    ctx.notes["tsan_reports_sizeof_ccxtpool"] = len(reports) - len(other)
     cur = None
     for ln in out.split("\n"):
         if ln.startswith("CASE "):
             cur = ln
         elif ln.startswith("O ") and cur:
-            ctx.violation(dict(kind="tsan-run", config=case_of_line(cur).config(), variant="tsan", observed=ln[2:]),
-                          what="real-thread run violates the property: %s" % ln[2:200])
+            cfg = case_of_line(cur).config()
+            exit66 = ln[2:].strip() == "child exit code 66"      # TSAN_OPTIONS exitcode: the child only reported races
+            ctx.violation(dict(kind="tsan-run", config=cfg, variant="tsan", observed=ln[2:]),
+                          what="real-thread run violates the property: %s" % ln[2:200],
+                          key=KEY_SZ if (exit66 and sizeof_only and ",Z" in cfg) else None)
             cur = None
-    if nrace:
-        i = err.find("WARNING: ThreadSanitizer")
-        ctx.violation(dict(kind="tsan", report=err[i:i + 3000]), what="ThreadSanitizer reports on the zstdmt harness: %s" % err[i:i + 200].replace("\n", " "), no_input=False)
+    if other:
+        r = other[0]
+        ctx.violation(dict(kind="tsan", report=r[:3000]), what="ThreadSanitizer reports on the zstdmt harness: %s" % r[:200].replace("\n", " "), no_input=False)
+    elif reports:
+        r = reports[0]
+        ctx.violation(dict(kind="tsan", report=r[:3000]), what="ThreadSanitizer reports on the zstdmt harness: %s" % r[:200].replace("\n", " "), no_input=False, key=KEY_SZ)
 
 
 def replay(ctx, runner):
